@@ -1292,17 +1292,29 @@ class Interp:
             val = self.exc_attr(v, attr, st, node)
             return [('val', val, st)]
         if isinstance(v, Sym):
+            stable = getattr(self.hooks, 'stable_attributes', False)
+            skey = ('symattr', id(getattr(v, 'root', v)), attr)
+            if stable and skey in st.heap:
+                # opt-in: a data attribute / property of an unknown object reads the same on one path (what a test
+                # has found out about it holds for the later tests of the same attribute)
+                return [('val', st.heap[skey], st)]
+
+            def remember(val):
+                if stable and isinstance(val, Sym):
+                    st.heap[skey] = val
+                return [('val', val, st)]
+
             if isinstance(v.cls, ClassDef):
                 mem = self.ix.class_member(v.cls, attr)
                 if isinstance(mem, FuncDef):
                     if mem.is_property:
-                        return [('val', self.sym_for_return(mem, ('attr', v, attr), node), st)]
+                        return remember(self.sym_for_return(mem, ('attr', v, attr), node))
                     if mem.is_static:
                         return [('val', FuncVal(mem), st)]
                     return [('val', BoundMethod(v, mem), st)]
                 cls = self.ix.attr_type(v.cls, attr)
-                return [('val', Sym('attr:' + attr, cls=cls, origin=('attr', v, attr), node=node), st)]
-            return [('val', Sym('attr:' + attr, origin=('attr', v, attr), node=node), st)]
+                return remember(Sym('attr:' + attr, cls=cls, origin=('attr', v, attr), node=node))
+            return remember(Sym('attr:' + attr, origin=('attr', v, attr), node=node))
         if isinstance(v, (ListVal, FuncVal, BoundMethod)):
             return [('val', Sym('attr:' + attr, origin=('attr', v, attr), node=node), st)]
         return [('val', Sym('attr:' + attr, origin=('attr', v, attr), node=node), st)]
